@@ -2009,7 +2009,13 @@ def symbolic_mode(query: Optional[SymbolicExpression] = None, mode: EQLMode = EQ
     :param query: Optional symbolic expression to also enter/exit as a context.
     """
     prev_mode = _symbolic_mode.get()
+    # mode None is the window in which queries are evaluated as if outside every block; there is no expression context
+    # outside every block either, otherwise a query that a user predicate builds during the evaluation is attached to
+    # the query of the block from which evaluate() was called.
+    prev_stack = SymbolicExpression._symbolic_expression_stack_
     try:
+        if mode is None:
+            SymbolicExpression._symbolic_expression_stack_ = []
         if query is not None:
             query.__enter__(in_rule_mode=True)
         _set_symbolic_mode(mode)
@@ -2018,6 +2024,8 @@ def symbolic_mode(query: Optional[SymbolicExpression] = None, mode: EQLMode = EQ
         if query is not None:
             query.__exit__()
         _set_symbolic_mode(prev_mode)
+        if mode is None:
+            SymbolicExpression._symbolic_expression_stack_ = prev_stack
 
 
 def properties_to_expression_tree(var: CanBehaveLikeAVariable, properties: Dict[str, Any])\
